@@ -33,6 +33,15 @@ def case_st(draw, shapes):
     sc["transforms"] = tx
     sc["insertions"] = inforce
     sc["mask_size"] = draw(st.integers(0, 12))
+    # --- pruning on either / both dimensions: the displayed vectors shrink, every base,
+    # --- margin, range and mask of what remains must not change (the judge follows the
+    # --- reported order)
+    flags = draw(st.sampled_from([(0, 0)] * 3 + [(1, 0), (0, 1), (1, 1), (1, 1)]))
+    for name, f in zip(("rows_dimension", "columns_dimension"), flags):
+        if f and len(sc["shape"]) >= 2:
+            sc["transforms"] = dict(sc["transforms"] or {})
+            sc["transforms"][name] = dict(sc["transforms"].get(name) or {}, prune=True)
+    sc["prune_flags"] = list(flags)
     return sc
 
 
@@ -64,6 +73,7 @@ def judge_slice(case, rec):
     dims = apparent_dims(sv, q)
     nd = len(dims)
     rec.event("shape=" + "x".join(case["shape"]))
+    rec.event("prune=%s" % (case.get("prune_flags"),))
     _nontrivial(case, rec)
     tkeys = dims[0].keys if nd == 3 else [None]
     for part, tkey in zip(cube.partitions, tkeys):
@@ -151,6 +161,10 @@ def judge_slice(case, rec):
             rname = "table_base_range" if name == "table_base" else "table_margin_range"
             gr = np.asarray(getattr(part, rname), dtype=float)
             cells = [e2[i, j] for i in base_r for j in base_c]
+            if any(case.get("prune_flags") or ()):
+                # pruned vectors still count: the range spans ALL base cells
+                cells = [orc.table_base(("el", rk), ("el", ck), name == "table_margin")
+                         for rk in orc.rows.keys for ck in orc.cols.keys]
             if cells:
                 wr = np.array([min(cells), max(cells)])
                 rec.compared()
